@@ -186,6 +186,8 @@ def run_case(case):
                 extra['stderr'] = d + '/err-%s.txt' % h['name']
             hh = C.rec_hook(h['name'], h['type'], d + '/hooks.log', plan=d + '/hookplan.json', allow_failure=h.get('allow_failure'), extra=extra)
             hh['args'].append('rev={{ identifier | rev_labels }}')
+            # a template without any {{ }}: block statements only
+            hh['args'].append('cond={% if is_clean_hook %}clean{% elif is_success %}ok{% else %}plain{% endif %}')
             hooks.append(hh)
         idl = []
         for (v, ctype), kind in zip(case['ids'], case['id_kinds']):
@@ -269,6 +271,9 @@ def run_case(case):
                         pb.append(('variables', 'post-operation: identifiers %r, expected %r' % (kv.get('identifiers'), want_ids)))
                     if kv.get('key_type') != 'ecdsa-p256' or not kv.get('certificate_path', '').endswith('c0_ecdsa-p256.crt.pem') or not kv.get('private_key_path', '').endswith('c0_ecdsa-p256.pk.pem'):
                         pb.append(('variables', 'post-operation: key_type/paths %r %r %r' % (kv.get('key_type'), kv.get('certificate_path'), kv.get('private_key_path'))))
+                want_cond = 'clean' if (event.startswith('challenge') and det.get('clean')) else ('ok' if (event == 'post-operation' and det.get('is_success')) else 'plain')
+                if kv.get('cond') != want_cond:
+                    pb.append(('variables', '%s: block-only template rendered as %r, expected %r' % (event, kv.get('cond'), want_cond)))
                 # exit code the recorder was told to use = the model's
                 if g.get('exit') != det['exit']:
                     pb.append(('order', '%s %s: invocation count differs (recorder exit %s, model %s)' % (hook, event, g.get('exit'), det['exit'])))
